@@ -10,7 +10,7 @@ from pathlib import Path
 
 VERIF = Path(__file__).resolve().parent.parent
 KNOWN_FILE = VERIF / "known_findings.json"
-EVIDENCE_DIR = VERIF / "evidence"
+EVIDENCE_DIR = Path(os.environ["XSA_EVIDENCE_DIR"]) if os.environ.get("XSA_EVIDENCE_DIR") else VERIF / "evidence"  # override only for scratch-variant runs of the tools
 
 
 @dataclass
